@@ -142,6 +142,11 @@ def step (st : St) (ws : List String) : St × String :=
       ({ st with specLoaded := Spec.loadedAfter st.specLoaded log },
         if ok then "ok" else "violates-C30")
     | _, _, _ => (st, "bad-op")
+  | "!exec" :: rest =>   -- oracle: body executions of one Exec, from the specification
+    match st.cfg, (field rest "runs").bind String.toNat?, (field rest "resend").bind String.toNat? with
+    | some c, some runs, some resend =>
+      (st, if Spec.bodyRunsOk c.ro c.retry (resend != 0) runs then "ok" else "violates-C30:body-executed-twice")
+    | _, _, _ => (st, "bad-op")
   | "!multilen" :: rest =>  -- oracle: one result per LuaExec
     match field rest "n" with
     | some n => (st, n)
